@@ -194,6 +194,14 @@ fn base_variants() -> Vec<(&'static str, &'static str, Need, Mk)> {
         let m = PoolExec::SendToken { token, amount: v(&format!("{}.amt", tag), w.d), recipient: "stranger".into() };
         Box::new(move |w, who| { let a = w.feepool.clone(); w.exec(who, &a, &m, &[]) })
     })));
+    // the payout names a privileged account as the recipient (the owner before / after a transfer)
+    for (nm, rcp) in [("send_token.to-owner", OWNER), ("send_token.to-new-owner", "owner2")] {
+        t.push(("fee_pool", nm, Need::Owner, mk(move |w, tag| {
+            let token = match &w.token { Some(t) => t.to_string(), None => DENOM.to_string() };
+            let m = PoolExec::SendToken { token, amount: v(&format!("{}.amt", tag), w.d), recipient: rcp.into() };
+            Box::new(move |w, who| { let a = w.feepool.clone(); w.exec(who, &a, &m, &[]) })
+        })));
+    }
     t.push(("fee_pool", "update_owner", Need::Owner, mk(|_w, _tag| {
         Box::new(move |w, who| { let a = w.feepool.clone(); w.exec(who, &a, &PoolExec::UpdateOwner { owner: "stranger".into() }, &[]) })
     })));
